@@ -135,12 +135,15 @@ def rule_mux(ctx: Ctx) -> None:
     mins = [c for c in A.func_calls(pk, shallow=False) if A.call_name(c) == "min"]
     from .. import norm as N
     min_ok = any(".when" in N.canon(N.expand(pk, c)) and "_prefetched_events" in N.canon(N.expand(pk, c)) for c in mins)
-    pf_first = any((A.call_name(c) or "") == "self._prefetch" for c in A.func_calls(pk)) and (not mins or min(
-        A.seq(c) for c in A.func_calls(pk) if (A.call_name(c) or "") == "self._prefetch") < min(A.seq(c) for c in mins))
+    # polling the empty slots happens before the minimum is taken: through _prefetch(), or in place when that helper was inlined
+    polls = [c for c in A.func_calls(pk) if (A.call_name(c) or "") == "self._prefetch"] or \
+            [s_.stmt for s_ in A.stores(pk, shallow=False) if isinstance(s_.target, ast.Subscript) and A.dotted(s_.target.value) == "self._prefetched_events"]
+    pf_first = bool(polls) and (not mins or min(A.seq(c) for c in polls) < min(A.seq(c) for c in mins))
     ctx.check(pf_first and min_ok, "C12.3",
               "the next time is the minimum over freshly prefetched events", pk, pk.node, "prefetch; min(when)", "peek_next_event_dt changed",
               key_text="peek min")
-    pf = ctx.func(f"{MX}._prefetch")
+    pf = ctx.repo.funcs.get(f"{MX}._prefetch") or pk
+    ctx.analysed_funcs.add(pf.qualname)
     comps = [n for n in ast.walk(pf.node) if isinstance(n, (ast.ListComp, ast.GeneratorExp, ast.SetComp))
              and "_prefetched_events.items()" in ast.unparse(n.generators[0].iter)]
     only_empty = False
